@@ -663,7 +663,9 @@ func c09R5(p *Prog, r *Report) {
 		okIdx := false
 		if mc != nil && idx != nil {
 			if sel, ok := ast.Unparen(mc.Call.Fun).(*ast.SelectorExpr); ok {
-				if ix, ok := ast.Unparen(sel.X).(*ast.IndexExpr); ok && objOf(info, ix.Index) == idx && strings.HasSuffix(exprStr(ix.X), ".routes") {
+				// the receiver, through locals: r.routes[i] or a pointer to it taken in this iteration
+				want := "recv.routes[" + idx.Name() + "]"
+				if got := strings.TrimPrefix(normExpr(p, m, sel.X), "&"); got == want {
 					okIdx = true
 				}
 			}
@@ -681,8 +683,8 @@ func c09R5(p *Prog, r *Report) {
 				if isNilExpr(info, node.Results[1]) {
 					nRet++
 					// returns &r.routes[i] on the matched edge after the error check
-					s := exprStr(node.Results[0])
-					ok := strings.HasPrefix(s, "&") && strings.HasSuffix(s, ".routes["+idx.Name()+"]") && m.G.EdgeDominates(te, ret) && mc.SuccessGuards(ret)
+					s := normExpr(p, m, node.Results[0])
+					ok := s == "&recv.routes["+idx.Name()+"]" && m.G.EdgeDominates(te, ret) && mc.SuccessGuards(ret)
 					r.Check(ok, rule, "router.(*Router).match:returns-first-match", p.posStr(node.Pos()), "returns the route just matched, inside the loop", "match returns "+s+" under a different condition: not the first matching route")
 				} else {
 					ne := mc.ResultEdges(1, WantNonNil)
